@@ -238,15 +238,15 @@ Proof. induction 1; cbn [map]; constructor; assumption. Qed.
 
 Lemma mol2_item mapping g fs : wf_wmol2 g fs ->
   exists ls, write_mol_v2000 mapping g = Ok ls /\
-    item_ok pm2 (L "$MOL") 5 1 (mk_item (add_nl (L "$MOL")) (map add_nl ls) (expected_mol2 mapping g fs)).
+    item_ok pm2 (L "$MOL") 4 1 (mk_item (add_nl (L "$MOL")) (map add_nl ls) (expected_mol2 mapping g fs)).
 Proof.
   intros W. destruct W.
   destruct (v2000_fields_roundtrip_tail mapping g fs w2_atoms0 w2_ne0 w2_na0 w2_nb0 w2_nd0 w2_bonds0 w2_wedge0 w2_cnt0) as [ls [Hw Hp]].
   exists ls. split; [exact Hw|].
   destruct (write_mol_v2000_shape mapping g ls Hw) as [_ [al [bl [pl [E [Hlen [Hal [Hbl Hpl]]]]]]]].
-  unfold item_ok. cbn [it_hd it_body it_m]. change (5 + 2 * 1)%nat with 7%nat. split; [reflexivity|]. split; [|split].
+  unfold item_ok. cbn [it_hd it_body it_m]. change (4 + 2 * 1)%nat with 6%nat. split; [reflexivity|]. split; [|split].
   - rewrite map_length, E, !app_length, Hlen. cbn [length]. destruct (wm_atoms g); [contradiction | cbn [length]; lia].
-  - change (Forall (nomark (L "$MOL")) (skipn (4 + 2) (map add_nl ls))). rewrite skipn_plus. apply Forall_skipn.
+  - change (Forall (nomark (L "$MOL")) (skipn (4 + 1) (map add_nl ls))). rewrite skipn_plus. apply Forall_skipn.
     rewrite E, map_app. rewrite skipn_app_exact by reflexivity.
     apply Forall_map_intro. apply Forall_app. split; [eapply atom_lines_nomark; eassumption|].
     apply Forall_app. split.
@@ -261,7 +261,7 @@ Definition mol_block (ls : list str) : list str := L "$MOL" :: ls.
 
 Lemma mols2_items mapping gs fss : Forall2 wf_wmol2 gs fss ->
   exists ms items, mapM (write_mol_v2000 mapping) gs = Ok ms /\
-    Forall (item_ok pm2 (L "$MOL") 5 1) items /\
+    Forall (item_ok pm2 (L "$MOL") 4 1) items /\
     map it_m items = map2 (expected_mol2 mapping) gs fss /\
     concat (map it_lines items) = map add_nl (concat (map mol_block ms)) /\
     length items = length gs.
@@ -336,7 +336,7 @@ Proof.
   assert (Htot : length (rxn_mols r) = (nr + np + ng)%nat) by (unfold rxn_mols; rewrite !app_length; lia).
   assert (Hpos : (0 < nr + np + ng)%nat) by (rewrite <- Htot; destruct (rxn_mols r); [contradiction | cbn [length]; lia]).
   match goal with |- parse_rxn_v2000 ?d = _ => set (data := d) end.
-  assert (Hdata : data = [add_nl (L "$RXN"); add_nl (wr_name r); add_nl []; add_nl []; add_nl (rxn_counts_v2000 r)] ++ [] ++
+  assert (Hdata : data = [add_nl (L "$RXN"); add_nl (wr_name r); add_nl []; add_nl []] ++ [add_nl (rxn_counts_v2000 r)] ++
                          concat (map it_lines items) ++ tail).
   { subst data. rewrite Hcat, map_app. reflexivity. }
   assert (H4 : nth_error data 4 = Some (add_nl (rxn_counts_v2000 r))) by (rewrite Hdata; reflexivity).
@@ -349,17 +349,17 @@ Proof.
   replace ((Z.of_nat nr <? 0) || (Z.of_nat np + Z.of_nat nr <? Z.of_nat nr) ||
            (Z.of_nat ng + (Z.of_nat np + Z.of_nat nr) <? Z.of_nat np + Z.of_nat nr)) with false
     by (symmetry; repeat (apply orb_false_intro); apply Z.ltb_ge; lia).
-  destruct (rxn_loop_items pm2 (L "$MOL") 5 1 data items
+  destruct (rxn_loop_items pm2 (L "$MOL") 4 1 data items
               (nat_range (Z.to_nat (Z.of_nat ng + (Z.of_nat np + Z.of_nat nr))))
-              [add_nl (L "$RXN"); add_nl (wr_name r); add_nl []; add_nl []; add_nl (rxn_counts_v2000 r)] []
+              [add_nl (L "$RXN"); add_nl (wr_name r); add_nl []; add_nl []] [add_nl (rxn_counts_v2000 r)]
               [] (Z.of_nat nr) (Z.of_nat np + Z.of_nat nr) (Z.of_nat ng + (Z.of_nat np + Z.of_nat nr)) 0%nat 0%nat tail)
     as [s' [P' [J' [Hf _]]]].
   - unfold nat_range. rewrite seq_length, Hlen, Htot. lia.
   - exact Hok.
-  - constructor.
+  - constructor; [| constructor]. unfold nomark, add_nl, rxn_counts_v2000. rewrite <- !app_assoc. apply fmt_d_not_mol.
   - reflexivity.
   - exact Hdata.
-  - change (fun d => lift2 (parse_mol_v2000 d)) with pm2. change 6%nat with (5 + 1)%nat. rewrite Hf. cbn [bind].
+  - change (fun d => lift2 (parse_mol_v2000 d)) with pm2. change 5%nat with (4 + 1)%nat. rewrite Hf. cbn [bind].
     unfold rxn_result. cbn [rs_rc rs_pc rs_mols rs_log].
     replace ((Z.of_nat nr <? 0) || (Z.of_nat np + Z.of_nat nr <? Z.of_nat nr)) with false
       by (symmetry; apply orb_false_intro; apply Z.ltb_ge; lia).
